@@ -163,6 +163,51 @@ def check_case(case):
                     else:
                         raise Violation('variant/%s' % kind, 'P2PKH variant %s maps to %s %r' % (kind, type(a).__name__, str(a)))
                 cls.append('variant:' + kind)
+            elif act == 'derive':
+                # the other ways into the same address classes, each defined in its docstring by the standard template:
+                # from_pubkey = P2PKH of HASH160(pubkey); from_redeemScript = P2SH of HASH160(script); the witness key-hash
+                # address's script code; every concrete class refuses the other templates
+                kind = step['kind']
+                if kind == 'pubkey':
+                    P = secp.mul(step['secret'], secp.G)
+                    form = step['form']
+                    pk = secp.ser_pub(P, form == 'c') if form in ('c', 'u') else bytes([6 + (P[1] & 1)]) + secp.ser_pub(P, False)[1:]
+                    if form == 'bad':
+                        pk = bytes([5]) + secp.ser_pub(P, True)[1:]
+                    want = ref_text(chain, 'p2pkh', H.h160(pk))
+                    r = libx.call('from_pubkey', P2PKHBitcoinAddress.from_pubkey, pk, allowed=(CBitcoinAddressError,))
+                    if form == 'bad':
+                        if r[0] == 'ok':
+                            raise Violation('derive/invalid-pubkey-accepted', 'from_pubkey(%s) returned %r' % (pk.hex(), str(r[1])))
+                        r = libx.call('from_pubkey-accept-invalid', P2PKHBitcoinAddress.from_pubkey, pk, accept_invalid=True)
+                    if r[0] != 'ok' or str(r[1]) != want or type(r[1]) is not P2PKHBitcoinAddress:
+                        raise Violation('derive/from_pubkey', 'from_pubkey(%s key) on %s gives %r, expected %r' % (form, chain, r[1] if r[0] != 'ok' else str(r[1]), want))
+                else:
+                    rs = bytes.fromhex(step['script'])
+                    want_spk = b'\xa9\x14' + H.h160(rs) + b'\x87'
+                    got_spk = libx.call('to_p2sh_scriptPubKey', CScript(rs).to_p2sh_scriptPubKey, allowed=(ValueError,))
+                    if len(rs) > 520:
+                        if got_spk[0] == 'ok':
+                            raise Violation('derive/p2sh-oversize', 'to_p2sh_scriptPubKey accepted a %d-byte redeem script' % len(rs))
+                        got_spk = libx.call('to_p2sh_scriptPubKey', CScript(rs).to_p2sh_scriptPubKey, checksize=False)
+                    if got_spk[0] != 'ok' or bytes(got_spk[1]) != want_spk:
+                        raise Violation('derive/p2sh-script', 'to_p2sh_scriptPubKey of a %d-byte script differs from HASH160 <h> EQUAL' % len(rs))
+                    if len(rs) <= 520:
+                        a = libx.call('from_redeemScript', P2SHBitcoinAddress.from_redeemScript, CScript(rs))[1]
+                        if str(a) != ref_text(chain, 'p2sh', H.h160(rs)) or type(a) is not P2SHBitcoinAddress:
+                            raise Violation('derive/from_redeemScript', 'from_redeemScript on %s gives %r' % (chain, str(a)))
+                    h = H.h160(rs)
+                    wa = CBitcoinAddress(ref_text(chain, 'p2wpkh', h))
+                    if bytes(libx.call('to_redeemScript', wa.to_redeemScript)[1]) != b'\x76\xa9\x14' + h + b'\x88\xac':
+                        raise Violation('derive/p2wpkh-scriptcode', 'P2WPKH to_redeemScript is not the key-hash script code')
+                    for t in ('p2pkh', 'p2sh', 'p2wpkh', 'p2wsh'):
+                        sc = ref_script(t, h if t != 'p2wsh' else H.sha256(rs))
+                        for t2 in ('p2sh', 'p2wpkh', 'p2wsh'):
+                            r = libx.call('class-from_scriptPubKey', CLS[t2].from_scriptPubKey, CScript(sc), allowed=(CBitcoinAddressError,))
+                            if (r[0] == 'ok') != (t == t2):
+                                raise Violation('derive/class-template', '%s.from_scriptPubKey(%s script) %s' % (CLS[t2].__name__, t, 'accepted' if r[0] == 'ok' else 'refused'))
+                cls.append('derive:' + kind + (':' + step['form'] if kind == 'pubkey' else ''))
+                nt = True
             elif act == 'parse':
                 text = step['text']
                 r = parse_check(chain, text, step.get('tag', 'text'))
@@ -222,7 +267,7 @@ h32 = st.binary(min_size=32, max_size=32)
 @st.composite
 def s_step(draw):
     chain = draw(chains)
-    k = draw(st.integers(0, 13))
+    k = draw(st.integers(0, 14))
     if k <= 3:
         t = draw(st.sampled_from(['p2pkh', 'p2sh', 'p2wpkh', 'p2wsh']))
         return {'chain': chain, 'act': 'rt', 'template': t, 'payload': draw(h32 if t == 'p2wsh' else h20).hex()}
@@ -267,6 +312,11 @@ def s_step(draw):
         else:
             text = text[:i] + text[i].swapcase() + text[i + 1:]
         return {'chain': chain, 'act': 'parse', 'text': text, 'tag': 'mutated'}
+    if k == 14:
+        if draw(st.booleans()):
+            return {'chain': chain, 'act': 'derive', 'kind': 'pubkey', 'secret': draw(st.integers(1, 2 ** 20)), 'form': draw(st.sampled_from(['c', 'u', 'h', 'bad']))}
+        n_ = draw(st.sampled_from([0, 1, 23, 25, 71, 519, 520, 521]))
+        return {'chain': chain, 'act': 'derive', 'kind': 'script', 'script': ((draw(st.binary(min_size=4, max_size=4)) * 131)[:n_]).hex()}
     if k == 11 and draw(st.booleans()):
         # checksum-VALID bech32 text under this chain's prefix whose 5-bit payload breaks a data rule: non-zero padding bits,
         # a whole surplus symbol, a version-0 program of 19/21/31/33/40 bytes (or is fine: version 0 with 20/32 bytes)
